@@ -19,8 +19,12 @@ Hypothesis R_sym : forall a b, R a b -> R b a.
 Hypothesis R_trans : forall a b c, R a b -> R b c -> R a c.
 Hypothesis R_bin : forall k a a' b b', R a a' -> R b b' -> R (binf C k a b) (binf C k a' b').
 Hypothesis R_un : forall k a a', R a a' -> R (unf C k a) (unf C k a').
-Definition flagged (k : nat) : Prop := comm_of tb k = true.
-Hypothesis flagged_assoc : forall k, flagged k -> forall a b c, R (binf C k (binf C k a b) c) (binf C k a (binf C k b c)).
+Hypothesis flagged_assoc : forall k, comm_of tb k = true -> forall a b c, R (binf C k (binf C k a b) c) (binf C k a (binf C k b c)).
+(* operator records of the table: flag and priority (0..99) *)
+Definition flagged : dbop -> Prop := table_op (comm_of tb).
+Lemma flagged_op_assoc : forall o, flagged o -> bcomm o = true ->
+  forall a b c, R (binf C (bidx o) (binf C (bidx o) a b) c) (binf C (bidx o) a (binf C (bidx o) b c)).
+Proof. intros o [Hc _] Hb. apply flagged_assoc. apply Hc. exact Hb. Qed.
 
 Variable vars : list str.      (* the variable list of the whole text *)
 Variable vals : list D.
@@ -48,8 +52,8 @@ Lemma mk_bop_ok k : is_bin tb k = true -> mk_bop tb k = Ok (dop k).
 Proof.
   unfold mk_bop, is_bin, dop, prio_of, comm_of, op_of. destruct (obin (nth k tb _)) as [bs|]; [reflexivity|discriminate].
 Qed.
-Lemma dop_flag k : bcomm (dop k) = true -> flagged (bidx (dop k)).
-Proof. exact (fun H => H). Qed.
+Lemma dop_flag k : flagged (dop k).
+Proof. split; [exact (fun H => H)|]. exact (prio_of_range tb Hwf_tb k). Qed.
 
 (* precedence evaluation over the operator records of a level = the reference evaluation of a chain of values *)
 Definition recs (l : list (nat * D)) : list (fop * D) := map (fun p => (to_fop (dop (fst p)), snd p)) l.
@@ -81,7 +85,7 @@ Qed.
 Definition nodeok (n : dnode D) : Prop := nwf n /\ incl (node_var_names n) vars.
 
 Lemma new_deepex_ok nodes bops uop :
-  length nodes = S (length bops) -> Forall nodeok nodes -> (forall o, In o bops -> bcomm o = true -> flagged (bidx o)) ->
+  length nodes = S (length bops) -> Forall nodeok nodes -> (forall o, In o bops -> flagged o) ->
   exists e, new_deepex C nodes bops uop = Ok e /\ dwf e /\ R (dden e) (apply_un C uop (level_val C (map nden nodes) bops)) /\
             dvars e = match nodes, uop with [DExpr e1], [] => dvars e1 | _, _ => sort_strs (flat_map node_var_names nodes) end.
 Proof.
@@ -93,7 +97,7 @@ Proof.
       { intros x Hx. apply Hin in Hx. apply in_flat_map in Hx. destruct Hx as (n & Hn' & Hx). rewrite Forall_forall in Hn. exact (proj2 (Hn n Hn') x Hx). }
       split; [|exact Hincl]. rewrite Hlen. apply NoDup_incl_length; assumption.
     - apply Forall_forall. intros n Hn'. rewrite Forall_forall in Hn. exact (proj1 (Hn n Hn')). }
-  destruct (dcompile_ok C R R_refl R_sym R_trans R_bin R_un flagged flagged_assoc (vlook C vals) okvar okvars _ Hwf) as (e & He & Hwe & Hr).
+  destruct (dcompile_ok C R R_refl R_sym R_trans R_bin R_un flagged flagged_op_assoc (vlook C vals) okvar okvars _ Hwf) as (e & He & Hwe & Hr).
   exists e. split; [|split; [exact Hwe|split]].
   - unfold new_deepex. destruct nodes as [|n nt]; [discriminate|]. rewrite Hl, Nat.eqb_refl. exact He.
   - rewrite dden_unfold in Hr. exact Hr.
